@@ -114,7 +114,9 @@ var c17TraitSig = map[string]string{
 	"raw-output0-string-with-NUL": "jqmode:--raw-output0:string-with-NUL-not-refused",
 }
 
-var c17TraitOrder = []string{"pairs-with-eq-form", "rawfile-jq-spelling", "ARGS-named", "slurp-under-null-input", "raw-input-empty", "error-value-not-a-string", "raw-output0-string-with-NUL"}
+// "rawfile-jq-spelling" and "error-value-not-a-string" were repaired in /repo (fix: commits e012499b, aba6172b):
+// they no longer rename a disagreement, so a regression shows under its plain signature.
+var c17TraitOrder = []string{"pairs-with-eq-form", "ARGS-named", "slurp-under-null-input", "raw-input-empty", "raw-output0-string-with-NUL"}
 
 type c17Ctx struct {
 	run  *ev.Run
